@@ -52,7 +52,18 @@ fn call_print(args: &[Object]) -> Result<Object, Error> {
             format_str = format_str.replacen("{}", &replacement.to_string(), 1);
         }
 
+        #[cfg(feature = "verif")]
+        if crate::verif::print(&format_str) {
+            crate::verif::print("\n");
+            return Ok(Object::null());
+        }
+
         print!("{format_str}");
+    }
+
+    #[cfg(feature = "verif")]
+    if crate::verif::print("\n") {
+        return Ok(Object::null());
     }
 
     println!();
